@@ -18,7 +18,8 @@ CFG = {
                  "the rest random over 0-3 parameters, rest parameter, undeclared keys incl. `body`/the rest name, spreads (maps with string and non-string keys, non-maps, undefined), "
                  "shorthand and literal attributes, duplicate attributes, body / no body, call site vs render_component, call sites below 1/2/19/20 callers. "
                  "iso: caller states (context, set, loop, loop-set, global, includer set/loop, with shadowing) x probed names in the caller, the component body and a template it includes; "
-                 "non-trivial = >= 3 names visible in the caller. prio: prefixes x templates x component names, four registration orders each; non-trivial = a name defined by >= 2 templates under >= 1 prefix. "
+                 "non-trivial = >= 3 names visible in the caller. prio: prefixes x templates x component names, four registration orders each; every template that defines a name also calls it and is rendered directly and through an include "
+                 "(call site inside the defining template, at every priority), and a render_str template with its own definition of each name is rendered (local shadowed by global); non-trivial = a name defined by >= 2 templates under >= 1 prefix. "
                  "depth: nesting paths of calls/includes (distinct components, self-, mutually-, through-include- and body-call-recursive programs, both entry points); non-trivial = 18..23 calls. "
                  "apieq: same arguments through render_component and through a call site (one-off and registered caller, both escaping modes); non-trivial = arguments supplied and accepted. "
                  "shape: every compiled chunk (after fusion) of corpus and generated callers that contains a component call; non-trivial = has a body call. "
@@ -33,7 +34,7 @@ CFG = {
     ],
     "modelled": ["parsing/ast.rs Type::matches_value, Type::from_value (generated), ComponentArgument::type_matches, ComponentDefinition::build_context",
                  "parsing/parser.rs parse_component_definition: declared-or-inferred parameter type",
-                 "vm/interpreter.rs component! macro, BuildMap/BuildMapWithSpreads (attribute map), render_component (depth check, fresh state), render_include (depth carried)",
+                 "vm/interpreter.rs component! macro (incl. the lookup order: global table first, the VM template's own components as fallback), BuildMap/BuildMapWithSpreads (attribute map), render_component (depth check, fresh state), render_include (depth carried)",
                  "vm/state.rs State::new, get_value, dump_context",
                  "tera.rs finalize_templates component table (priority, duplicates), get_template_priority, render_component_to"],
     "assumptions": ["definitions are well-formed as the parser guarantees (distinct parameter names, `body` reserved, rest name distinct from parameters): wf_def",
